@@ -1,6 +1,7 @@
 package wire
 
 import (
+	"os"
 	"context"
 	"errors"
 	"fmt"
@@ -848,5 +849,102 @@ func VerifH06p() {
 	vAssert("second-sync-ready", err == nil && got == "Z")
 	if info.outcome == 5 {
 		vReach("statement-panicked")
+	}
+}
+
+// vSimpleCyclesOK: the reply types of simple-query cycles, possibly cut short:
+// each cycle is RowDescription DataRow* (CommandComplete | ErrorResponse), or a
+// lone CommandComplete / ErrorResponse / EmptyQueryResponse, then ReadyForQuery.
+// A ReadyForQuery never comes without the completion or the error it closes.
+func vSimpleCyclesOK(types string) bool {
+	state := 0
+	for i := 0; i < len(types); i++ {
+		c := types[i]
+		switch state {
+		case 0:
+			switch c {
+			case 'T':
+				state = 1
+			case 'C', 'E', 'I':
+				state = 2
+			default:
+				return false
+			}
+		case 1:
+			switch c {
+			case 'D':
+			case 'C', 'E':
+				state = 2
+			default:
+				return false
+			}
+		case 2:
+			if c != 'Z' {
+				return false
+			}
+			state = 0
+		}
+	}
+	return true
+}
+
+// ---------------------------------------------------------------------------
+// H05t — ONE refused write during simple queries (C05, C02): two Query
+// messages; the statement writes a row and completes, or fails, or the parse
+// callback fails; exactly one Write of the transport (which one is the solver's
+// choice: a RowDescription, a DataRow, a CommandComplete, an ErrorResponse or a
+// ReadyForQuery) is refused with nothing accepted — an error of the deadline
+// kind, a net.Error timeout or an opaque one — and the Writes after it are
+// accepted again. What the client RECEIVES stays a sequence of well-formed
+// cycles: a ReadyForQuery only after the CommandComplete or ErrorResponse it
+// closes, one per query answered; whatever could not be delivered is simply
+// missing at the end of a session that ended there, or was reported.
+// ---------------------------------------------------------------------------
+func VerifH05t() {
+	behaviour := vChoose(3)
+	stmt := func(ctx context.Context, dw DataWriter, params []Parameter) error {
+		if behaviour == 1 {
+			return errors.New("verif: the statement failed")
+		}
+		if err := dw.Row([]any{"v"}); err != nil {
+			return err
+		}
+		return dw.Complete("SELECT 1")
+	}
+	parse := func(ctx context.Context, query string) (PreparedStatements, error) {
+		if behaviour == 2 {
+			return nil, errors.New("verif: no such statement")
+		}
+		return Prepared(NewStatement(stmt, WithColumns(vTextColumns(1)))), nil
+	}
+	srv, err := NewServer(parse, MessageBufferSize(64))
+	vAssert("newserver-ok", err == nil)
+	q := vMsgBytes('Q', vCStr([]byte("q")))
+	w := &vWorld{srv: srv}
+	w.conn = vNewConn(vCat(q, q))
+	w.conn.failWriteOnly = 1 + vChoose(vParam("WRITES", 6))
+	switch vChoose(3) {
+	case 0:
+		w.conn.failWriteErr = os.ErrDeadlineExceeded
+	case 1:
+		w.conn.failWriteErr = vTimeoutErr{}
+	default:
+		w.conn.failWriteErr = errVerifIO
+	}
+	w.ses, w.rd, w.wr = vSession(srv, w.conn)
+	w.ctx = vCtx(srv)
+	for i := 0; i < 2; i++ {
+		got, err := w.step()
+		if err != nil {
+			vAssert("a-session-that-ends-has-sent-at-most-one-ReadyForQuery-for-the-query", vCount(got, 'Z') <= 1)
+			vReach("session-ended-by-the-refused-write")
+			break
+		}
+		vAssert("an-answered-query-ends-with-its-one-ReadyForQuery", len(got) >= 2 && got[len(got)-1] == 'Z' && vCount(got, 'Z') == 1)
+	}
+	vAssert("wire-wellformed", vWireOK(w.conn.out))
+	vAssert("received-replies-are-well-formed-cycles", vSimpleCyclesOK(vTypes(w.conn.out)))
+	if w.conn.failedWrites == 1 {
+		vReach("one-write-refused")
 	}
 }
